@@ -11,7 +11,7 @@ import (
 // its (final) body refers to. The reference crawler reads only declarations.
 type Node struct {
 	URL      string            `json:"url"`
-	Kind     string            `json:"kind"` // html | bin | m3u8 | redirect | status | fail5xx | fail5xx-big | flaky | refuse | cut
+	Kind     string            `json:"kind"` // html | bin | m3u8 | redirect | status | fail5xx | fail5xx-big | flaky | refuse | cut | badpdf | emptyxml
 	Refs     []string          `json:"refs,omitempty"`
 	Links    []string          `json:"links,omitempty"` // anchors of an html page: outlinks when the hop limit allows, never fetched for this seed
 	Location string            `json:"location,omitempty"`
@@ -88,6 +88,12 @@ func (d *SiteDef) Build() Site {
 			p.Script = append(p.Script, Resp{Status: 200, Header: map[string]string{"Content-Type": "image/png"}, Body: pngMagic})
 		case "refuse":
 			p.Script = []Resp{{Err: true}}
+		case "bigtext": // 2.2 MiB of text: spooled to a temp file by ProcessBody
+			p.Script = []Resp{{Status: 200, Header: map[string]string{"Content-Type": "text/plain"}, Body: strings.Repeat("lorem ipsum dolor sit amet, consectetur adipiscing elit\n", 40000)}}
+		case "badpdf": // a PDF cut short: the outlink extractor returns an error
+			p.Script = []Resp{{Status: 200, Header: map[string]string{"Content-Type": "application/pdf"}, Body: "%PDF-1.4\n1 0 obj\n<< /Type /Catalog /Pages 2 0 R >>\nendobj\n2 0 obj\n<< /Type /Pages /Kids [3 0 R] /Count 1"}}
+		case "emptyxml": // declared XML, nothing in it
+			p.Script = []Resp{{Status: 200, Header: map[string]string{"Content-Type": "application/xml"}, Body: ""}}
 		case "cut": // headers arrive, the connection breaks in the middle of the body
 			p.Script = []Resp{{Status: 200, Header: map[string]string{"Content-Type": "image/png"}, Body: pngMagic + strings.Repeat("\x00", 4096), CutAt: 100}}
 		}
@@ -216,7 +222,7 @@ func (d *SiteDef) Reference(seed string, opt Options) *Expect {
 				attempts++
 				code := 404
 				switch kind {
-				case "html", "bin", "m3u8", "cut":
+				case "html", "bin", "m3u8", "cut", "badpdf", "emptyxml", "bigtext":
 					code = 200
 				case "redirect":
 					code = n.Code
